@@ -323,6 +323,28 @@ func runProgram(t *testing.T, tr *vh.Trace, tid string, stackName string, prog [
 			}
 
 			log("api", c)
+		case "strip":
+			// a fresh read, every label and annotation and finalizer deleted one by one, written back: the stored
+			// object then holds allocated-but-empty containers
+			if r, err := s.base.Get(ctx, key.Pointer()); err == nil {
+				for k := range r.Metadata().Labels().Raw() {
+					r.Metadata().Labels().Delete(k)
+				}
+
+				for k := range r.Metadata().Annotations().Raw() {
+					r.Metadata().Annotations().Delete(k)
+				}
+
+				for _, f := range append([]string{}, *r.Metadata().Finalizers()...) {
+					r.Metadata().Finalizers().Remove(f)
+				}
+
+				if err = s.st.Update(ctx, r, state.WithExpectedPhaseAny()); err == nil {
+					hs[c.H] = held{res: r}
+				}
+			}
+
+			log("api", c)
 		case "update":
 			if cur, ok := hs[c.H]; ok && cur.res != nil {
 				// a fresh read, changed and written; the written object stays held
